@@ -114,14 +114,17 @@ func (g *cGraph) carries(v CV, targets map[CV]bool) bool {
 	return walk(v, 0)
 }
 
-// coreFrom: the running total: seed values plus every copy-only value ALL of
-// whose inputs are in the set or integer constants (so a phi that also merges
-// "count-1" is not part of it).
+// coreFrom: the running total: the seed additions plus every copy of them
+// (phis, returns, cells, conversions). A merge point belongs to it when at
+// least one incoming value is the total and no other incoming value is
+// COMPUTED FROM the total (count-1 …); starting values that are independent
+// of it (0, 1, the result of copy(), a parameter) are fine.
 func (g *cGraph) coreFrom(seed []CV) map[CV]bool {
 	set := map[CV]bool{}
 	for _, s := range seed {
 		set[g.res(s)] = true
 	}
+	derived := g.flowFrom(seed, func(CV) bool { return true })
 	var all []CV
 	g.eachInstr(func(n *cgNode, in ssa.Instruction) {
 		if v, ok := in.(ssa.Value); ok {
@@ -140,11 +143,11 @@ func (g *cGraph) coreFrom(seed []CV) map[CV]bool {
 			}
 			any, allOK := false, true
 			for _, in := range ins {
-				if set[in] {
+				switch {
+				case set[in]:
 					any = true
-				} else if in == y {
-					// self edge of a loop phi
-				} else if !g.constLike(in, 0) {
+				case in == y:
+				case derived[in] && !g.onlyThroughCopies(in, y):
 					allOK = false
 				}
 			}
@@ -155,6 +158,30 @@ func (g *cGraph) coreFrom(seed []CV) map[CV]bool {
 		}
 	}
 	return set
+}
+
+// onlyThroughCopies: in is computed from the total only by copying, through merge point y itself
+// (a loop-carried or outer phi that will join the set once y does).
+func (g *cGraph) onlyThroughCopies(in, y CV) bool {
+	seen := map[CV]bool{}
+	var walk func(x CV, d int) bool
+	walk = func(x CV, d int) bool {
+		if seen[x] || d > 12 {
+			return true
+		}
+		seen[x] = true
+		if !g.copyOnly(x) {
+			return false
+		}
+		for _, i := range g.inputs(x) {
+			if !walk(i, d+1) {
+				return false
+			}
+		}
+		return true
+	}
+	_ = y
+	return walk(in, 0)
 }
 
 // constLike: a constant, or a phi merging only constants (n := 0; if c { n = 1 }).
@@ -244,6 +271,12 @@ func (g *cGraph) linD(cv CV, d int) cgLin {
 			return g.linD(CV{cv.C, x.X}, d+1)
 		}
 	case *ssa.Call:
+		// len(x) of a slice value cut with known bounds: High - Low
+		if builtinName(x) == "len" && len(x.Call.Args) == 1 {
+			if l, ok := g.sliceLenLin(CV{cv.C, x.Call.Args[0]}, d+1); ok {
+				return l
+			}
+		}
 		// min(a, b) / max(a, b) of constants
 		if b := builtinName(x); (b == "min" || b == "max") && len(x.Call.Args) == 2 {
 			a, c := g.linD(CV{cv.C, x.Call.Args[0]}, d+1), g.linD(CV{cv.C, x.Call.Args[1]}, d+1)
@@ -626,16 +659,42 @@ func (pp *cgPipe) classify(cond CV) int {
 
 // pFact: is P known on every path to n (or along the edge pred->to)?
 func (pp *cgPipe) pFact(conds []cgCond, depth int) (val, known bool) {
+	v, k, _ := pp.pFactX(conds, depth)
+	return v, k
+}
+
+// pFactX also reports when the conditions contradict each other about P (an infeasible path, e.g. the
+// fall-through of a switch over a two-valued flag).
+func (pp *cgPipe) pFactX(conds []cgCond, depth int) (val, known, contra bool) {
 	for _, dc := range conds {
 		t := pp.evalD(dc.Cond, dc.At, depth+1, false)
+		var v bool
 		switch t {
 		case triP:
-			return dc.Branch, true
+			v = dc.Branch
 		case triN:
-			return !dc.Branch, true
+			v = !dc.Branch
+		case triT:
+			if !dc.Branch {
+				contra = true
+			}
+			continue
+		case triF:
+			if dc.Branch {
+				contra = true
+			}
+			continue
+		default:
+			continue
+		}
+		if known && v != val {
+			contra = true
+		}
+		if !known {
+			val, known = v, true
 		}
 	}
-	return false, false
+	return val, known, contra
 }
 
 // eval evaluates boolean cv as seen at node at.
@@ -678,6 +737,9 @@ func (pp *cgPipe) evalD(cv CV, at *cgNode, depth int, refine bool) cgTri {
 		res = triP
 	case -1:
 		res = triN
+	}
+	if res == triU {
+		res = pp.evalEnumCmp(cv, at, depth)
 	}
 	if res == triU {
 		if edges, ok := g.phiEdges(cv); ok {
@@ -776,6 +838,12 @@ func (g *cGraph) sibling(c CV, e cgEdge) (CV, bool) {
 }
 
 func (pp *cgPipe) evalPhi(cv CV, edges []cgEdge, at *cgNode, depth int) cgTri {
+	return pp.evalPhiMapped(cv, edges, at, depth, nil)
+}
+
+// evalPhiMapped: like evalPhi, with the truth of each incoming value given by mapv (used for `x == K` where x
+// is a flag / small enum chosen among constants, e.g. the result of a phase helper).
+func (pp *cgPipe) evalPhiMapped(cv CV, edges []cgEdge, at *cgNode, depth int, mapv func(CV) cgTri) cgTri {
 	g := pp.g
 	j := g.joinOf(cv)
 	const (
@@ -811,8 +879,13 @@ func (pp *cgPipe) evalPhi(cv CV, edges []cgEdge, at *cgNode, depth int) cgTri {
 		} else {
 			conds = g.domConds(e.Pred)
 		}
-		t := pp.evalD(e.Val, e.Pred, depth+1, false)
-		if t == triU {
+		var t cgTri
+		if mapv != nil {
+			t = mapv(e.Val)
+		} else {
+			t = pp.evalD(e.Val, e.Pred, depth+1, false)
+		}
+		if t == triU && mapv == nil {
 			// maybe decided by the edge condition itself
 			for _, dc := range conds {
 				c, br := g.stripNot(dc.Cond, dc.Branch)
@@ -828,7 +901,11 @@ func (pp *cgPipe) evalPhi(cv CV, edges []cgEdge, at *cgNode, depth int) cgTri {
 			n--
 			continue
 		}
-		pv, known := pp.pFact(conds, depth)
+		pv, known, contra := pp.pFactX(conds, depth)
+		if contra {
+			n--
+			continue
+		}
 		switch t {
 		case triT, triF:
 			if !known || pv {
@@ -887,6 +964,16 @@ func (pp *cgPipe) linWhen(cv CV, at *cgNode, pv bool, depth int) (cgLin, bool) {
 	if pp.core[l.Base] {
 		return cgLin{pp.marker(), l.K}, true
 	}
+	// max(x, 0) of a byte count is the count
+	if c, ok := l.Base.V.(*ssa.Call); ok && builtinName(c) == "max" && len(c.Call.Args) == 2 {
+		for i := 0; i < 2; i++ {
+			if k, ok := g.constInt(CV{l.Base.C, c.Call.Args[i]}); ok && k == 0 {
+				if ll, ok := pp.linWhen(CV{l.Base.C, c.Call.Args[1-i]}, at, pv, depth+1); ok && ll.Base == pp.marker() {
+					return cgLin{ll.Base, ll.K + l.K}, true
+				}
+			}
+		}
+	}
 	// len(x)
 	if c, ok := l.Base.V.(*ssa.Call); ok && builtinName(c) == "len" && len(c.Call.Args) == 1 {
 		if ll, ok := pp.lenWhen(CV{l.Base.C, c.Call.Args[0]}, at, pv, depth+1); ok {
@@ -911,7 +998,7 @@ func (pp *cgPipe) linWhen(cv CV, at *cgNode, pv bool, depth int) (cgLin, bool) {
 		} else {
 			conds = g.domConds(e.Pred)
 		}
-		if ev, known := pp.pFact(conds, depth); known && ev != pv {
+		if ev, known, contra := pp.pFactX(conds, depth); contra || (known && ev != pv) {
 			continue
 		}
 		el, ok := pp.linWhen(e.Val, e.Pred, pv, depth+1)
@@ -954,7 +1041,7 @@ func (pp *cgPipe) lenWhen(cv CV, at *cgNode, pv bool, depth int) (cgLin, bool) {
 			} else {
 				conds = g.domConds(e.Pred)
 			}
-			if ev, known := pp.pFact(conds, depth); known && ev != pv {
+			if ev, known, contra := pp.pFactX(conds, depth); contra || (known && ev != pv) {
 				continue
 			}
 			el, ok := pp.lenWhen(e.Val, e.Pred, pv, depth+1)
@@ -1028,4 +1115,106 @@ func calleeFull(c ssa.CallInstruction) string {
 		return obj.Pkg().Path() + "." + typeBaseName(sig.Recv().Type()) + "." + obj.Name()
 	}
 	return obj.Pkg().Path() + "." + obj.Name()
+}
+
+// sliceLenLin: the length of slice value v as a linear form.
+func (g *cGraph) sliceLenLin(v CV, d int) (cgLin, bool) {
+	v = g.deep(v)
+	if d > 12 {
+		return cgLin{}, false
+	}
+	switch x := v.V.(type) {
+	case *ssa.MakeSlice:
+		return g.linD(CV{v.C, x.Len}, d+1), true
+	case *ssa.Alloc:
+		if arr, ok := deref(x.Type()).Underlying().(*types.Array); ok {
+			return cgLin{CV{}, arr.Len()}, true
+		}
+	case *ssa.Slice:
+		var lo cgLin
+		if x.Low != nil {
+			lo = g.linD(CV{v.C, x.Low}, d+1)
+			if !lo.isConst() {
+				return cgLin{}, false
+			}
+		}
+		if x.High != nil {
+			h := g.linD(CV{v.C, x.High}, d+1)
+			return cgLin{h.Base, h.K - lo.K}, true
+		}
+		inner, ok := g.sliceLenLin(CV{v.C, x.X}, d+1)
+		if !ok {
+			return cgLin{}, false
+		}
+		return cgLin{inner.Base, inner.K - lo.K}, true
+	}
+	if edges, ok := g.phiEdges(v); ok && len(edges) > 0 {
+		var out cgLin
+		n := 0
+		for _, e := range edges {
+			if g.isNil(e.Val) {
+				continue
+			}
+			l, ok := g.sliceLenLin(e.Val, d+1)
+			if !ok || (n > 0 && l != out) {
+				return cgLin{}, false
+			}
+			out = l
+			n++
+		}
+		return out, n > 0
+	}
+	return cgLin{}, false
+}
+
+// evalEnumCmp: cv is `x == K` / `x != K` with K a constant and x chosen among constants at a merge point
+// (a flag or small enum returned by a phase helper, or assigned in the branches of the decision).
+func (pp *cgPipe) evalEnumCmp(cv CV, at *cgNode, depth int) cgTri {
+	g := pp.g
+	bo, ok := cv.V.(*ssa.BinOp)
+	if !ok || (bo.Op != token.EQL && bo.Op != token.NEQ) {
+		return triU
+	}
+	x, k := g.res(CV{cv.C, bo.X}), g.res(CV{cv.C, bo.Y})
+	if _, isK := x.V.(*ssa.Const); isK {
+		x, k = k, x
+	}
+	kc, ok := k.V.(*ssa.Const)
+	if !ok || kc.Value == nil {
+		return triU
+	}
+	x = g.deep(x)
+	edges, ok := g.phiEdges(x)
+	if !ok {
+		return triU
+	}
+	if pp.inprog == nil {
+		pp.inprog = map[CV]bool{}
+	}
+	if pp.inprog[x] {
+		return triS
+	}
+	pp.inprog[x] = true
+	defer delete(pp.inprog, x)
+	var mapv func(v CV) cgTri
+	mapv = func(v CV) cgTri {
+		v = g.deep(v)
+		c, ok := v.V.(*ssa.Const)
+		if !ok || c.Value == nil || c.Value.Kind() != kc.Value.Kind() {
+			// a nested choice among constants
+			if es, ok := g.phiEdges(v); ok && !pp.inprog[v] {
+				pp.inprog[v] = true
+				t := pp.evalPhiMapped(v, es, nil, depth+1, mapv)
+				delete(pp.inprog, v)
+				return t
+			}
+			return triU
+		}
+		eq := constant.Compare(c.Value, token.EQL, kc.Value)
+		if (bo.Op == token.EQL) == eq {
+			return triT
+		}
+		return triF
+	}
+	return pp.evalPhiMapped(x, edges, at, depth+1, mapv)
 }
